@@ -208,6 +208,10 @@ def run(ctx):
     # fallback after a failed kill: next candidate, not a return
     ls = [l for l in loops(rts) if l["stmt"] is not None and rts.nodes[l["stmt"]]["k"] == "while"
           and "nextBestOptionStack" in rts.text(rts.nodes[l["stmt"]]["c"])]
+    if len(ls) > 1 and kills:
+        # several loops mention the stack: the DFS is the one that contains the kill site(s)
+        ls = [l for l in ls if all(rts.pos_of(k)[0] in l["body"] for k in kills)]
+        ls = [l for l in ls if not any(o is not l and o["body"] < l["body"] and all(rts.pos_of(k)[0] in o["body"] for k in kills) for o in ls)]
     if len(ls) != 1:
         ctx.broken("dfs-loop", "anchor", rts.loc(), "expected one while(!nextBestOptionStack.empty()) loop")
     else:
@@ -225,6 +229,9 @@ def run(ctx):
         ctx.check(v is not None and rts.text(init) == "nextBestOptionStack.back()", "take-top-of-stack", "provenance",
                   rts.loc(), "the candidate is the top of the stack", "candidate is " + (rts.text(init) if v else "?"))
         pops = [i for i in rts.calls("pop_back") if "nextBestOptionStack" in rts.text(rts.nodes[i].get("recv", -1))]
+        # pops inside a nested loop of their own (e.g. draining the stack when the cycle is parked) are not the per-iteration pop
+        inner_loops = [l for l in loops(rts) if l is not L and l["body"] < L["body"]]
+        pops = [i for i in pops if not any(rts.pos_of(i)[0] in l["body"] for l in inner_loops)]
         per_iter_once(ctx, rts, L, pops, "pop-once-per-iteration", "nextBestOptionStack.pop_back()")
         # a skipped (unpopulated / descended) candidate is not retried: pop precedes every continue
         # ranked children are pushed in reverse: reverse() precedes the push loop
@@ -250,3 +257,30 @@ def run(ctx):
             ctx.check(forward_iteration(f, l), "push-loop-forward:" + short(f), "loop-shape", f.loc(l["stmt"]),
                       "pushes in vector order", "push loop is not a forward traversal")
     ctx.floor("push_sites", 2, "candidate push sites")
+    # the fallback stack survives a deferred prekill hook in the same order: saved bottom-to-top, restored bottom-to-top
+    rfh = ctx.fn1("Oomd::BaseKillPlugin::resumeFromPrekillHook")
+    n_sr = 0
+    for f, what, recv_pat, src_pat in ((rts, "save", r"prekillHookState_.*nextBestOptionStack$", r"nextBestOptionStack"),
+                                       (rfh, "restore", r"^nextBestOptionStack$", r"serializedNextBestOptionStack|prekillHookState_.*nextBestOptionStack")):
+        Xf = Expander(P, f)
+        for i in f.calls("emplace_back", "push_back", "insert", "emplace", "push_front", "emplace_front"):
+            recv = f.text(f.nodes[i].get("recv", -1)).replace("this->", "").replace("->", ".")
+            if not re.search(recv_pat, recv):
+                continue
+            lp = [l for l in loops(f) if l["stmt"] is not None and f.pos_of(i)[0] in l["body"]]
+            lp = sorted(lp, key=lambda l: len(l["body"]))
+            if what == "save" and ls and lp and lp[0] is ls[0]:
+                lp = []       # not inside a traversal of its own: judged below
+            if what == "restore" and "rankForKilling" in Xf(f.nodes[i]["args"][0]):
+                continue
+            n_sr += 1
+            inner = lp[0] if lp else None
+            hdr = loop_header(f, inner) if inner else ""
+            fwd = inner is not None and forward_iteration(f, inner) and re.search(src_pat, hdr.replace("this->", "").replace("->", ".")) is not None
+            back = f.nodes[i]["cname"] in ("emplace_back", "push_back")
+            ctx.check(fwd and back, "fallback-stack-%s-keeps-order:%s" % (what, short(f)), "loop-shape", f.loc(i),
+                      "the fallback stack is %sd by a front-to-back traversal appending at the back (top of the stack stays last)" % what,
+                      "the fallback stack is not %sd bottom-to-top (%s; %s): after a deferred prekill hook the remaining candidates are tried in a "
+                      "different order than without the hook" % (what, "traversal: " + (hdr or "none"), f.nodes[i]["cname"]))
+    ctx.counters["stack_save_restore_sites"] = n_sr
+    ctx.floor("stack_save_restore_sites", 2, "save and restore of the fallback stack around a deferred prekill hook")
